@@ -132,6 +132,10 @@ class Ctx:
         cmd = ["go", "build", "-tags", tags, "-o", out]
         if race:
             cmd.append("-race")
+        if os.environ.get("VERIF_COVER"):
+            # diagnosis only (bin/libcoverage): which lines of the library do the harnesses ever execute?  the binaries then
+            # write their counters to $GOCOVERDIR
+            cmd += ["-cover", "-coverpkg=gitlab.com/gomidi/midi/v2/..."]
         cmd.append(pkg)
         hd = self._harness_copy()
         p = subprocess.run(cmd, cwd=hd, env=env, capture_output=True, text=True, timeout=900)
